@@ -336,3 +336,34 @@ Qed.
 Lemma out_of_fuel_unsafe : forall p fd H,
   chk p H 0 (fn_body fd) (entry_env fd) = None.
 Proof. intros. apply chk_0. Qed.
+
+(* --------------------------------------- from the generated obligation to [safe] *)
+Lemma dedup_nil : forall l, dedup l = [] -> l = [].
+Proof.
+  induction l as [|a l IH]; intros Hd; [reflexivity|]. cbn [dedup] in Hd.
+  destruct (nmem a l) eqn:Hm; [|discriminate Hd].
+  rewrite (IH Hd) in Hm. discriminate Hm.
+Qed.
+
+(* an entry point for which no defect is on record passes the generated obligation
+   only if the checker accepts it *)
+Lemma ok_entry_safe : forall p fd,
+  accepted_params accepted_unsafe (fn_name fd) = [] -> ok_entry p fd = true -> safe p fd = true.
+Proof.
+  intros p fd Hacc Hok. unfold ok_entry, mutated_params in Hok. unfold safe.
+  destruct (analyse p fd) as [v|]; [|discriminate Hok]. rewrite Hacc in Hok.
+  destruct v as [|[ln q] v]; [reflexivity|]. exfalso.
+  destruct (dedup (map snd ((ln, q) :: v))) as [|q' l'] eqn:Hd.
+  - apply dedup_nil in Hd. discriminate Hd.
+  - cbn in Hok. discriminate Hok.
+Qed.
+
+Theorem entry_points_sound : forall p fd n0 st o st',
+  forallb (ok_entry p) (entry_points p) = true ->
+  In fd (entry_points p) -> accepted_params accepted_unsafe (fn_name fd) = [] ->
+  initial fd n0 st -> exec p (fn_body fd) st o st' ->
+  forall l, In l (st_log st') -> (n0 <= l)%nat.
+Proof.
+  intros p fd n0 st o st' Hall Hin Hacc. apply safe_sound. apply ok_entry_safe; [exact Hacc|].
+  rewrite forallb_forall in Hall. exact (Hall fd Hin).
+Qed.
